@@ -301,9 +301,10 @@ theorem base_zero_of_ne_removeLiq {s s' : St} {op : Op} {o : Out} (h : step s op
     simp only [step, mergeLp, Option.bind_eq_bind, Option.bind_eq_some_iff, Option.pure_def,
       Option.some.injEq, Prod.mk.injEq] at h
     obtain ⟨_, _, ⟨s1, sx⟩, _, _, rfl⟩ := h; rfl
-  | mergeFarm farm l mf t stray =>
-    simp only [step, mergeFarm, Option.bind_eq_bind, Option.bind_eq_some_iff, Option.pure_def] at h
-    obtain ⟨_, _, ⟨f0, x0⟩, _, r0, _, ⟨s1, sp⟩, _, h⟩ := h
+  | mergeFarm farm l mf t rew stray =>
+    simp only [step, mergeFarm, mergeFarmCore, Option.bind_eq_bind, Option.bind_eq_some_iff,
+      Option.pure_def, Option.some.injEq, Prod.mk.injEq] at h
+    obtain ⟨⟨s0, o0⟩, ⟨_, _, ⟨f0, x0⟩, _, r0, _, ⟨s1, sp⟩, _, h⟩, _, rfl⟩ := h
     dsimp only at h
     split at h <;>
       (simp only [Option.some.injEq, Prod.mk.injEq] at h; obtain ⟨_, rfl⟩ := h; rfl)
